@@ -618,7 +618,8 @@ def patch_thread_class():
         s.yield_('thread.start', type(self).__name__)
         role_fn = getattr(s, 'role_for_thread', None)
         role = role_fn(self) if role_fn else f'{type(self).__name__}#{len(s.threads)}'
-        st = s.spawn(self.run, role)
+        parent = s.me()
+        st = s.spawn(self.run, role, proc=parent.proc, daemon=bool(self.daemon))
         st.pytarget = self
         self._sim_thread = st
 
